@@ -152,6 +152,17 @@ func TestProp(t *testing.T) {
 			}
 		}
 	}
+	// the PAC grid: every PAC condition at every position among the ticket's authorization data, PAC decoding on and off
+	for _, et := range ref.ETypes {
+		for _, p := range []string{"pac-good", "pac-badsig", "pac-broken-table", "pac-broken-header", "pac-broken-empty", "pac-broken-count", "pac-broken-offset"} {
+			for _, pos := range []string{"pac-behind-empty", "pac-behind-restriction", "pac-behind-two", "pac-before-other"} {
+				for _, dec := range []bool{true, false} {
+					jobs = append(jobs, job{et, []string{p, pos}, setting{0, false, "", "", dec}, "HTTP/svc.example.com"})
+				}
+			}
+		}
+	}
+	r.Rule("enum (PAC grid): every etype x PAC {good, bad server signature, five unparseable shapes} x position of its AD-IF-RELEVANT container among the ticket's authorization data {behind an empty container, behind a KERB-AD-RESTRICTION-ENTRY container, behind both, in front of another} x PAC decoding on / off")
 	r.Rule(fmt.Sprintf("enum: every etype x {valid, every single defect} x all %d settings combinations (quick: a seeded 1/3 slice) + defect pairs (thorough: every ordered pair under default and one rotating setting; quick: a seeded 1/40 slice)", len(settings)))
 	evid.Parallel(len(jobs), 16, func(i int) {
 		j := jobs[i]
